@@ -41,6 +41,8 @@ def run(ctx):
     ctx.run_rule("R7-identity-lookup", c08.r7_identity, F)          # the probe that decides "found" vs "insert" (shared with C08)
     ctx.run_rule("R4-lookup-shape", c08.r4_lookup, F)               # found / inserted / raced arms each count exactly one reference
     ctx.run_rule("R8-batch-forget-default", batch_forget_default, F)
+    from rules import c02
+    ctx.run_rule("R7-oversize-gate", c02.r7_oversize, F)            # the only pre-dispatch refusal is on the request's length: a forget is never dropped for lack of reply space
     ctx.run_rule("R1-entry-pairing", c08.r1_entry_pairing, F)     # a reference the client never received is given back, on that inode
     ctx.assumptions += ["linearizability over all interleavings is not decided (needs schedule exploration, a different technique family)"]
 
